@@ -179,6 +179,90 @@ class SendFut(ModelObj):
         it.drop_value(v)
 
 
+class SendTimeoutFut(ModelObj):
+    type_name = "SendTimeoutFut"
+
+    def __init__(self, w, chan, value, d):
+        self.inner = SendFut(chan, value)
+        self.deadline = w.now + d
+        w.timeouts.append(d)
+        w.deadlines.append(self.deadline)
+
+    def poll(self, it, cx):
+        r = self.inner.poll(it, cx)
+        if r.variant == "Ready":
+            res = r.fields[0]
+            if res.variant == "Ok":
+                return mk_ready(mk_ok(UNIT))
+            return mk_ready(mk_err(mk_enum("SendTimeoutError", "Closed", res.fields[0].fields[0])))
+        w = it.env
+        w.acc(("clock",), False)
+        if it.ex.branch_bool(w.zge(w.now, self.deadline)):
+            if self.inner.ticket:
+                self.inner.chan.w.acc(self.inner.chan.key(), True)
+                self.inner.chan.withdraw(self.inner.ticket)
+                self.inner.ticket = 0
+            v, self.inner.value = self.inner.value, MOVED
+            return mk_ready(mk_err(mk_enum("SendTimeoutError", "Timeout", v)))
+        return mk_pending()
+
+    def drop(self, it):
+        self.inner.drop(it)
+
+
+class Permit(ModelObj):
+    type_name = "Permit"
+
+    def __init__(self, chan):
+        self.chan, self.used = chan, False
+
+    def drop(self, it):
+        if not self.used:
+            self.used = True
+            self.chan.w.acc(self.chan.key(), True)
+            self.chan.release_one()
+
+
+class ReserveFut(ModelObj):
+    type_name = "ReserveFut"
+
+    def __init__(self, chan):
+        self.chan, self.ticket = chan, 0
+
+    def poll(self, it, cx):
+        c = self.chan
+        k = c.key()
+        c.w.acc(k, False)
+        if c.closed:
+            if self.ticket:
+                c.w.acc(k, True)
+                c.withdraw(self.ticket)
+                self.ticket = 0
+            return mk_ready(mk_err(Agg("struct", "SendError", [UNIT])))
+        if self.ticket == 0:
+            c.w.acc(k, True)
+            if c.free > 0:
+                c.free -= 1
+                return mk_ready(mk_ok(Permit(c)))
+            self.ticket = c.next_ticket
+            c.next_ticket += 1
+            c.waitq.append(self.ticket)
+            c.w.touch()
+            return mk_pending()
+        if self.ticket in c.granted:
+            c.w.acc(k, True)
+            c.granted.remove(self.ticket)
+            self.ticket = 0
+            return mk_ready(mk_ok(Permit(c)))
+        return mk_pending()
+
+    def drop(self, it):
+        if self.ticket:
+            self.chan.w.acc(self.chan.key(), True)
+            self.chan.withdraw(self.ticket)
+            self.ticket = 0
+
+
 class RecvFut(ModelObj):
     type_name = "RecvFut"
 
@@ -373,7 +457,7 @@ class HookFuture(ModelObj):
         w = self.w
         if not self.started:
             self.started = True
-            it.ex.event(ev="hook_enter", hook=self.kind, actor=self.actor_name, **self.info)
+            it.ex.event(ev="hook_enter", hook=self.kind, actor=self.actor_name, **{k: v for k, v in self.info.items() if not k.startswith("_")})
         self.body_polls += 1
         a = w.actors.get(self.actor_name)
         if a and a.get("mailbox") is not None:
@@ -398,12 +482,21 @@ class HookFuture(ModelObj):
                     continue
                 continue
             break
+        if self.yields_left == "tick":
+            # a periodic hook: waits for the (virtual) timer, i.e. until the clock has moved
+            w.acc(("clock",), False)
+            if self.info.get("_armed_at") is None:
+                self.info["_armed_at"] = w.obj_ver.get(("clock",), 0)
+                return mk_pending()
+            if w.obj_ver.get(("clock",), 0) == self.info["_armed_at"]:
+                return mk_pending()
+            self.yields_left = 0
         if self.yields_left > 0:
             self.yields_left -= 1
             w.current_task_self_wake()
             return mk_pending()
         out = self.finish(it)
-        it.ex.event(ev="hook_exit", hook=self.kind, actor=self.actor_name, out=w.describe(out), **self.info)
+        it.ex.event(ev="hook_exit", hook=self.kind, actor=self.actor_name, out=w.describe(out), **{k: v for k, v in self.info.items() if not k.startswith("_")})
         return mk_ready(out)
 
     def drop(self, it):
